@@ -35,6 +35,12 @@ Theorem digests_are_untruncated : gen_args_hash_full = true /\ gen_key_hash_full
 Proof. exact (conj eq_refl eq_refl). Qed.
 Print Assumptions digests_are_untruncated.
 
+(* ... and it is fed the WHOLE quoted text of every key and value: `encode gen_enc` is the text that is
+   hashed, not a prefix or slice of it (two long inline values that differ late must get two ids) *)
+Theorem args_id_hashes_whole_text : gen_args_text_whole = true.
+Proof. exact eq_refl. Qed.
+Print Assumptions args_id_hashes_whole_text.
+
 (* the quoting is necessary: with raw key/value text, separators inside a value forge an item *)
 Theorem unquoted_encoding_refuted : forall c, quote_key c = false -> quote_val c = false -> sort_keys c = true ->
   kv_sep c = [61] -> item_sep c = [59] ->
